@@ -160,4 +160,17 @@ theorem fromEntry_eq (clockId : Bytes) (k : SortKind) (source fetched : List Ent
   simp only
   cases (entryDifference sliced source ++ List.drop (entryDifference sliced source).length sliced).getLast? <;> rfl
 
+/-- **`fromJSON`'s glue, translated, is the model's `loadJSON`** (the fetch result is a parameter; id and heads are
+    handed through from the caller's manifest) — and it cannot panic -/
+theorem fromJSON_eq (clockId : Bytes) (k : SortKind) (id : Bytes) (fetched : List Entry) (nOpt : Option Int) :
+    (Generated.Go.fromJSONTail nOpt fetched).map (fun ents => newLog id clockId k ents []) =
+      some (loadJSON clockId k id fetched (nOpt.getD (-1))) := by
+  unfold Generated.Go.fromJSONTail Generated.Go.fromJSONTail_join1 loadJSON
+  simp only [entryLastN_eq]
+  cases nOpt with
+  | none => simp
+  | some v =>
+    simp only [Option.isSome_some, Bool.true_and, Option.getD_some]
+    by_cases h : v > -1 <;> simp [h]
+
 end Model.SlicesGen
